@@ -82,3 +82,17 @@ def fmt_dec(v, dsep=",", tsep=None):
         ip = tsep.join(out)
     r = ip + (dsep + fp if fp else "")
     return ("-" if neg else "") + r
+
+
+_SEP_FLIP = [0]
+
+
+def sep_ops(dsep, tsep):
+    """the two separator setters, in alternating order from call to call: the configuration reached must not depend on
+    the order in which set_decimal_seperator and set_thousand_separator are called (grouping first is as legal as
+    decimal first, also when the new grouping character equals the decimal separator still in force)"""
+    ops = [{"op": "set_dec", "v": dsep}, {"op": "set_thou", "v": tsep}]
+    _SEP_FLIP[0] += 1
+    if _SEP_FLIP[0] % 2 == 0:
+        ops.reverse()
+    return ops
